@@ -135,8 +135,19 @@ pub fn run_c04(w: &mut W) {
         let mut ex = Exporter::new();
         let mut sut = Sut::new(1);
         let n = 2 + rng.usize(6);
+        let mut other = Exporter::new();
+        let mut last_source: u32 = rng.b32();
         for _ in 0..n {
+            if rng.chance(1, 5) {
+                // an IPFIX message of the same device (observation domain = the V9 source id) that
+                // announces templates over the same ids: nothing IPFIX does is visible to V9
+                let mut m = other.ipfix_msg(&mut rng, &cfg, &w.pools);
+                m.domain = last_source;
+                sut.parse(0, &m.wire());
+                w.rep.count("interleaved_ipfix_messages", 1);
+            }
             let pkt = ex.v9_packet(&mut rng, &cfg, &w.pools);
+            last_source = pkt.source_id;
             let wire = pkt.wire();
             w.rep.count("packets", 1);
             let verdict = parse_one(&mut sut, &wire, "v9").and_then(|e| match &e {
@@ -305,6 +316,8 @@ pub fn run_c05(w: &mut W) {
         }
         let cfg = stream_cfg(&mut rng);
         let mut ex = Exporter::new();
+        let mut other = Exporter::new();
+        let mut last_domain: u32 = rng.b32();
         let mut sut = Sut::new(1);
         let n = 2 + rng.usize(6);
         for _ in 0..n {
@@ -330,7 +343,15 @@ pub fn run_c05(w: &mut W) {
                 sut.parse(0, &m.wire());
                 w.rep.count("withdrawal_shaped_messages", 1);
             }
+            if rng.chance(1, 5) {
+                // a V9 packet of the same device (source id = the observation domain) over the same ids
+                let mut p = other.v9_packet(&mut rng, &cfg, &w.pools);
+                p.source_id = last_domain;
+                sut.parse(0, &p.wire());
+                w.rep.count("interleaved_v9_packets", 1);
+            }
             let msg = ex.ipfix_msg(&mut rng, &cfg, &w.pools);
+            last_domain = msg.domain;
             let wire = msg.wire();
             w.rep.count("packets", 1);
             w.rep.count(&format!("sets_per_message.{}", msg.sets.len()), 1);
